@@ -604,6 +604,18 @@ def run(ctx, rep):
                     elif y < l:
                         rep.problem("transform", "transform output below left_border", c, "transform:below-left", True, y, l,
                                     "C10_in_box")
+        # a returned array is the caller's: a later call on the same grid (same shape, other strings) does not change it
+        first = g.transform(rows.astype(np.int8))
+        keep = first.copy()
+        second = g.transform(rows[::-1].copy().astype(np.int8))
+        back1 = g.inverse_transform(np.minimum(keep, np.array(right)[None, :]))
+        keep_b = back1.copy()
+        _ = g.inverse_transform(np.minimum(second, np.array(right)[None, :]))
+        rep.count("result-ownership", (kind, tuple(bits), tuple(left), tuple(right)))
+        if not np.array_equal(first, keep) or np.shares_memory(first, second) or not np.array_equal(back1, keep_b):
+            rep.problem("transform", "the array returned by an earlier transform / inverse_transform call was changed by a later call on the same grid",
+                        dict(fn="transform", kind=kind, left=list(left), right=list(right), bits=bits, rows=rows[:3].tolist(), sequence="transform(A); transform(reversed A)"),
+                        "transform:result-overwritten", True, None, None, "C10_transform_point")
         out = g.transform(rows.astype(np.int8))
         body = C.clist([f"({cbits(rows[i])}, {cqs(out[i])})" for i in range(nrows)])
         tgt = f_trow if exact else f_tclo
